@@ -4,6 +4,7 @@ import (
 	"bytes"
 	"fmt"
 	"io/fs"
+	"regexp"
 	"strings"
 	"testing/fstest"
 
@@ -202,11 +203,76 @@ func NewMachine(o VMOpts) *Machine {
 	if !o.NoStubs {
 		installStubs(m.VM)
 	}
+	if !o.NoStubs {
+		maxLen := DefaultBudget.MaxLen
+		if o.Obs != nil && o.Obs.Budget.MaxLen > 0 {
+			maxLen = o.Obs.Budget.MaxLen
+		}
+		installGuards(m.VM, maxLen)
+	}
 	m.VM.VerifSetOptimize(o.Optimize)
 	if o.Obs != nil {
 		m.VM.VerifObserve(o.Obs)
 	}
 	return m
+}
+
+var wideVerb = regexp.MustCompile(`\d{5,}`)
+
+// installGuards wraps the natives that can amplify their input (a runaway
+// loop around s = fmt.Sprintf("%s%s", s, s) doubles a string per iteration,
+// far inside the instruction budget). The wrapper only checks sizes and then
+// calls the original native, so behaviour below the limit is the library's
+// own; above it the run ends as an ordinary budget error.
+func installGuards(vm *goatlang.VM, maxLen int) {
+	wrap := func(name string, fixed int, check func(args []goatlang.Value) bool) {
+		orig := vm.Get(name)
+		if orig.IsNil() {
+			return
+		}
+		vm.Set(name, goatlang.NewFunc(fixed+1, 1, func(v *goatlang.VM, args []goatlang.Value, vargs ...goatlang.Value) []goatlang.Value {
+			all := append(append([]goatlang.Value{}, args...), vargs...)
+			if !check(all) {
+				panic(BudgetMarker + ": " + name + " output size")
+			}
+			rets, err := v.Func(orig, 1, all...)
+			if err != nil {
+				panic(err)
+			}
+			return rets
+		}))
+	}
+	strLen := func(v goatlang.Value) int {
+		if v.Type() == goatlang.TypeString || v.Type() == goatlang.TypeSlice {
+			return v.Len()
+		}
+		return 8
+	}
+	total := func(args []goatlang.Value) int {
+		n := 0
+		for _, a := range args {
+			n += strLen(a)
+			if a.Type() == goatlang.TypeSlice && a.Len() < 4096 {
+				for i := 0; i < a.Len(); i++ {
+					e, _ := a.Get(goatlang.Int(i))
+					n += strLen(e)
+				}
+			}
+		}
+		return n
+	}
+	wrap("fmt.Sprintf", 1, func(a []goatlang.Value) bool {
+		return total(a) <= maxLen && (len(a) == 0 || a[0].Type() != goatlang.TypeString || !wideVerb.MatchString(a[0].String()))
+	})
+	wrap("fmt.Sprint", 0, func(a []goatlang.Value) bool { return total(a) <= maxLen })
+	wrap("strings.Join", 2, func(a []goatlang.Value) bool {
+		return len(a) < 2 || total(a[:1])+a[0].Len()*strLen(a[1]) <= maxLen
+	})
+	for _, n := range []string{"strings.ReplaceAll", "strings.Replace"} {
+		wrap(n, 3, func(a []goatlang.Value) bool {
+			return len(a) < 3 || (strLen(a[0])+1)*(strLen(a[2])+1) <= maxLen
+		})
+	}
 }
 
 func installStubs(vm *goatlang.VM) {
